@@ -163,6 +163,11 @@ class Run:
         g = z3.simplify(goal)
         if z3.is_true(g):
             return
+        kind0 = what.split(".")[0]
+        if kind0 in getattr(self, "safety_assumed", ()):
+            self.assumed_used[f"safety of `{kind0}` operations assumed, not proved, in this contract"] = self.safety_assumed[kind0]
+            self.add_fact("safety", "assumed_safety", goal)
+            return
         seen = self.__dict__.setdefault("safety_seen", set())
         if goal.get_id() in seen:
             return
@@ -227,7 +232,9 @@ def to_fraction(x):
     x = float(x)
     if x != x or x in (float("inf"), float("-inf")):
         raise EngineLimit(f"non-finite float literal {x}")
-    return Fraction(x)
+    # S1: a float that is the nearest double of a small rational (the value CPython computed for
+    # a literal expression such as -2/3 or 1/6) is read as that rational
+    return nice_rational(x)
 
 
 def rv(fr):
@@ -244,7 +251,7 @@ def num_of(e):
     return None
 
 
-def nice_rational(x, max_den=720):
+def nice_rational(x, max_den=5040):
     """S1: a float literal such as the value of `1/3` is read as the nearby small rational"""
     fr = Fraction(float(x)).limit_denominator(max_den)
     if float(fr) == float(x):
@@ -648,7 +655,13 @@ def floordiv(a, b):
     if ia and ib:
         if cb is not None and cb > 0:
             return SInt(ea / eb)  # z3 int division is floor for positive divisor
-        raise EngineLimit("integer floor division by a non-constant / non-positive divisor")
+        # symbolic divisor: python floor semantics, x = k*d + r, r has the sign of d
+        run.safety("div", eb != 0)
+        k, r = run.fresh("fdiv", "int"), run.fresh("fmod", "int")
+        fact = z3.And(ea == k * eb + r, z3.Or(z3.And(eb > 0, r >= 0, r < eb), z3.And(eb < 0, r <= 0, r > eb)))
+        run.add_def(k, fact)
+        run.add_def(r, fact)
+        return SInt(k)
     # real floor division by a positive constant: k int, k*b <= a < (k+1)*b
     if cb is None or cb <= 0:
         raise EngineLimit("real floor division by a non-constant / non-positive divisor")
@@ -789,9 +802,10 @@ def sqrt(a):
     if isinstance(a, np.ndarray):
         return np.frompyfunc(sqrt, 1, 1)(a)
     ca = concrete(a)
-    if ca is not None and not isinstance(a, SNum):
+    if ca is not None and not isinstance(a, SNum) and CUR is None:
         return math.sqrt(a)
     if ca is not None:
+        a = SReal(rv(ca))
         if ca < 0:
             cur().safety("sqrt", z3.BoolVal(False))
             raise PathEnd("sqrt of negative")
